@@ -214,6 +214,10 @@ pub enum OuterSel {
     LhsAncestor(usize),
     /// a clean top-level node that depends on an ancestor of the left-hand side ("sibling")
     Sibling(usize),
+    /// a top-level-held scalar node that is already invalid when the bind is created (a node
+    /// exported by an earlier run of some bind): a closure returning it, or building on it,
+    /// yields an invalid right-hand side
+    Invalid(usize),
 }
 
 #[derive(Serialize, Deserialize, Clone, Debug, PartialEq)]
@@ -223,6 +227,8 @@ pub enum BodyExpr {
     Const(i64),
     /// `e.map(|x| f(l, x))`, closure captures `l`
     Map(Box<BodyExpr>, F2),
+    /// the same node through another constructor: 0 `map_cyclic`, 1 `enumerate`, 2 `pipe` + `map`
+    MapVia(Box<BodyExpr>, F2, u8),
     Map2(Box<BodyExpr>, Box<BodyExpr>, F2),
     /// a var created inside the body (`top` = created with `state.var`, else current scope)
     NewVar { v: i64, top: bool },
@@ -249,6 +255,9 @@ pub struct BodySpec {
     /// the driver (observable from the top level)
     #[serde(default)]
     pub side: Option<Box<BodyExpr>>,
+    /// bit 0: build the bind with `binds` (closure also receives the state)
+    #[serde(default)]
+    pub via: u8,
     pub fx: Vec<EffectSpec>,
 }
 
@@ -268,7 +277,8 @@ pub enum Action {
     NewVar { init: i64 },
     NewVarP { a: i64, b: i64 },
     NewConst { v: i64 },
-    NewMap { src: usize, f: F1, fx: Vec<EffectSpec> },
+    /// `via`: 0 `map`, 1 `map_cyclic`, 2 `enumerate`, 3 `pipe` + `map`
+    NewMap { src: usize, f: F1, fx: Vec<EffectSpec>, #[serde(default)] via: u8 },
     /// pair -> scalar
     NewMapP { src: usize, f: F2 },
     /// scalar -> pair: (x mod 3, x div 2)
